@@ -311,6 +311,8 @@ func main() {
 		{"W5-timeout", [][]step{{unlock(pwRight, 1)}, {obsStatus(), sleep(2), obsStatus(), obsDump()}}},
 		{"W6-unlock/setpw-wrong/lock", [][]step{{unlock(pwRight, 0)}, {setpw(pwWrong, pwNew)}, {lock()}, {obsStatus(), obsStatus()}}},
 		{"W7-unlock-setpw-lock", [][]step{{unlock(pwRight, 0), setpw(pwRight, pwNew), lock()}, {obsDump(), obsStatus()}, {obsSeed(pwNew)}}},
+		{"W9-second-timed-unlock-after-expiry", [][]step{{unlock(pwRight, 1), sleep(2), unlock(pwRight, 1), sleep(3)}, {sleep(4), obsStatus(), obsDump()}, {sleep(4), obsSeed(pwRight)}}},
+		{"W10-timed-unlock-rearmed-while-pending", [][]step{{unlock(pwRight, 3), sleep(1), unlock(pwRight, 1)}, {sleep(5), obsStatus(), obsSign(e)}}},
 		{"W8-timeout-vs-setpw", [][]step{{unlock(pwRight, 1), sleep(2), setpw(pwWrong, pwNew)}, {sleep(2), obsStatus(), obsSign(e)}}},
 	}
 	bound := r.Pick(5, 9)
